@@ -198,3 +198,7 @@ Proof.
   apply Forall_forall. intros b Hb. pose proof (proj1 (forallb_forall _ _) E b Hb) as E1.
   apply existsb_exists in E1. destruct E1 as (c & Hc & Ec). apply Z.eqb_eq in Ec. subst. assumption.
 Qed.
+
+Theorem builtin_unmapped_is_question_mark b c :
+  In b fonts -> ~ In c (builtin_chars b) -> builtin_index b c = builtin_index b 63 /\ In 63 (builtin_chars b).
+Proof. intros H Hn. split; [apply builtin_index_unmapped; assumption|apply builtin_question_mark_mapped; assumption]. Qed.
